@@ -2,9 +2,9 @@
 import itertools
 
 NAME = "sudoku"
-STATUS = "differential only"
+STATUS = "model+differential"
 THEOREMS = []
-LEAN_CMD = None
+LEAN_CMD = "puz_sudoku"
 
 
 def gen_problem(rng, tier):
@@ -65,3 +65,8 @@ def rule_check(problem, answer):
             if {g[by * n + dy][bx * n + dx] for dy in range(n) for dx in range(n)} != full:
                 return False
     return all(pb[y][x] < 1 or pb[y][x] == g[y][x] for y in range(size) for x in range(size))
+
+
+def lean_line(problem):
+    rows = " ".join("(" + " ".join(str(v) for v in row) + ")" for row in problem["problem"])
+    return "(puz_sudoku %d (%s))" % (problem["n"], rows)
